@@ -163,8 +163,8 @@ Proof. exact setattr_traiterror_effect_on_map. Qed.
 Print Assumptions reject_no_effect_refuted_undefined_on_map.
 
 (* any exception (TraitError or one of the value's own protocol) leaves every attribute as it
-   was, provided mapped defaults are keys (post_safe; it also still asks that no Map sits inside an Either, which is
-   no longer necessary since F19 was repaired), and the value
+   was, provided the default of a stand-alone Map / PrefixMap is one of its keys (post_safe; a Map inside an Either,
+   at any nesting depth, needs nothing since F19 was repaired: post_compound_never_raises), and the value
    is not the Undefined sentinel (which bypasses validation: F22) *)
 Theorem exception_no_effect :
   forall E c s n v s' e, is_undefined v = false -> post_safe c = true -> setattr E c s n v = (s', Raise e) -> s' = s.
@@ -316,4 +316,15 @@ Example dynamic_enum_nonvacuous :
   map (fun p => o_out (snd p)) (model_hist E0 c [] ops) = [Ok; Ok; Raise ETraitError; Ok] /\
   dyn_enum_readable c (o_after (snd (nth 1 (model_hist E0 c [] ops) (((Attr, []) : op), mkObs Ok true [])))) 0 2 = Some (PStr [98]) /\
   dyn_enum_readable c (o_after (snd (nth 3 (model_hist E0 c [] ops) (((Attr, []) : op), mkObs Ok true [])))) 0 2 = Some (PStr [99]).
+Proof. vm_compute. repeat split. Qed.
+
+(* Either(Either(Map({'a': 1}), Str), Int, default=0): the class meets the hypotheses of law_holds_on_every_history; the
+   nested compound contributes its _post_setattr: x_ is the mapped value for a key, the value itself otherwise *)
+Example mapped_compound_nonvacuous :
+  let c := [(0, (DCompound [DCompound [DMap [(PStr [97], PInt 1)]; DStr]; DInt], PInt 0))] in
+  let ops := [(Attr, [(0, PStr [97])]); (TraitSet, [(0, PInt 5)]); (Attr, [(0, PFloat (FFin false 500))]); (TraitSetQ, [(0, PStr [98])])] in
+  class_ok E0 c = true /\ post_safe c = true /\ ops_defined ops = true /\
+  map (fun p => (o_out (snd p), get (o_after (snd p)) 0, get (o_after (snd p)) (shadow 0))) (model_hist E0 c [] ops)
+  = [(Ok, Some (PStr [97]), Some (PInt 1)); (Ok, Some (PInt 5), Some (PInt 5));
+     (Raise ETraitError, Some (PInt 5), Some (PInt 5)); (Ok, Some (PStr [98]), Some (PStr [98]))].
 Proof. vm_compute. repeat split. Qed.
